@@ -22,13 +22,15 @@ DollarPaths == { <<Dollar(1), Step("A")>>, <<Dollar(2)>>, <<Dollar(2), Step("X")
 ArgSets == { <<"int">>, <<"ArgS">>, <<"int", "string">> }
 
 \* ---- destination paths
-DstPaths(d) == PathsBelow(<< >>, d, 2)
-Targets(d) == {p \in DstPaths(d) : p \in {<<"A">>, <<"B">>, <<"C">>, <<"N">>, <<"N", "X">>, <<"S">>, <<"D", "K">>, <<"X", "X">>, <<"I", "Y">>, <<"Z">>}}
+DstPaths(d) == PathsBelow(<< >>, d, 3)
+Targets(d) == {p \in DstPaths(d) : p \in {<<"A">>, <<"B">>, <<"C">>, <<"N">>, <<"N", "X">>, <<"S">>, <<"D", "K">>, <<"X", "X">>, <<"I", "Y">>, <<"Z">>, <<"H", "K">>, <<"D", "In", "X">>}}
           \cup {<<"Nowhere">>}                      \* a path that names nothing: inert
 LowerPath(p) == [i \in DOMAIN p |-> Lower(p[i])]
 
 SkipNotes(d) == {SkipN("exact", p) : p \in DstPaths(d)} \cup {SkipN("exact", LowerPath(p)) : p \in Targets(d)}
-                \cup {SkipN("prefix", <<"N">>), SkipN("prefix", <<"n">>), SkipN("suffix", <<"X">>), SkipN("suffix", <<"a">>), SkipN("exact", <<"Nowhere">>)}
+                \cup {SkipN("prefix", <<"N">>), SkipN("prefix", <<"n">>), SkipN("suffix", <<"X">>), SkipN("suffix", <<"a">>), SkipN("exact", <<"Nowhere">>),
+                 \* patterns that also match members the generated package cannot see (they must stay unmentioned)
+                 SkipN("suffix", <<"y">>), SkipN("suffix", <<"s">>), SkipN("suffix", <<"w">>), SkipN("prefix", <<"X">>), SkipN("prefix", <<"H">>)}
 MapNotes(d)  == {MapN(s, p) : s \in SrcPaths, p \in Targets(d)}
 ConvNotes(d) == {ConvN(f, s, p) : f \in DOMAIN WFuncs, s \in ConvSrc, p \in Targets(d) \ {<<"Nowhere">>, <<"I", "Y">>, <<"Z">>}}
 \* literal text is the user's responsibility (garbage belongs to C14): only literals that are well typed for the target
@@ -40,7 +42,8 @@ DollarNotes(d) == {MapN(s, p) : s \in DollarPaths, p \in Targets(d) \cap {<<"A">
 Small(d) == {MapN(<<Step("A2")>>, <<"A">>), MapN(<<Step("A2")>>, <<"C">>), MapN(<<Step("A2")>>, <<"N", "X">>), MapN(<<Step("Nope")>>, <<"A">>),
              ConvN("CvII", <<Step("A")>>, <<"A">>), ConvN("CvII", <<Step("A")>>, <<"N", "X">>), ConvN("CvIE", <<Step("A")>>, <<"C">>),
              LitN(<<"A">>, "7"), LitN(<<"N", "X">>, "7"), MapN(<<Step("N")>>, <<"N">>), ConvN("CvNN", <<Step("N")>>, <<"N">>),
-             LitN(<<"D", "K">>, "7"), MapN(<<Dollar(2)>>, <<"N", "X">>)}
+             LitN(<<"D", "K">>, "7"), MapN(<<Dollar(2)>>, <<"N", "X">>), MapN(<<Step("A2")>>, <<"D", "In", "X">>),
+             MapN(<<Dollar(2)>>, <<"D", "In", "X">>)}
 Parent(p) == SubSeq(p, 1, Len(p) - 1)
 PairNotes(d) == UNION {{<<SkipN("exact", q), n>> : q \in {n.dst, Parent(n.dst)} \ {<< >>}} : n \in Small(d)}
            \cup {<<n, SkipN("exact", n.dst)>> : n \in Small(d)}
@@ -69,7 +72,8 @@ ProgInit(OptSet) ==
      \/ \E e \in BOOLEAN, ns \in PairNotes(r[1]) : prog = Prog(r, o, e, <<"int">>, ns)
 
 QuickOpts == {[case |-> TRUE, getter |-> FALSE, stringer |-> FALSE, typecast |-> FALSE, rule |-> "name"],
-              [case |-> FALSE, getter |-> TRUE, stringer |-> FALSE, typecast |-> TRUE, rule |-> "name"]}
+              [case |-> FALSE, getter |-> TRUE, stringer |-> FALSE, typecast |-> TRUE, rule |-> "name"],
+              [case |-> FALSE, getter |-> FALSE, stringer |-> FALSE, typecast |-> FALSE, rule |-> "name"]}
 InitAll   == ProgInit(Opts) /\ Rest
 InitQuick == ProgInit(QuickOpts) /\ Rest
 SpecAll   == InitAll /\ [][Next]_vars
